@@ -190,6 +190,9 @@ func (p *Program) instrWrites(in ssa.Instruction, includeFresh bool, out map[str
 		}
 		p.rootKeys(i.Addr, out)
 	case *ssa.MapUpdate:
+		if _, fresh := i.Map.(*ssa.MakeMap); fresh && !includeFresh {
+			return // a map created by this very call is invisible to the caller
+		}
 		if mt, ok := i.Map.Type().Underlying().(*types.Map); ok {
 			out[S.MapHasKey(mt).Name] = true
 			out[S.MapValKey(mt).Name] = true
@@ -199,6 +202,9 @@ func (p *Program) instrWrites(in ssa.Instruction, includeFresh bool, out map[str
 		if b, ok := c.Value.(*ssa.Builtin); ok {
 			switch b.Name() {
 			case "delete":
+				if _, fresh := c.Args[0].(*ssa.MakeMap); fresh && !includeFresh {
+					return
+				}
 				if mt, ok := c.Args[0].Type().Underlying().(*types.Map); ok {
 					out[S.MapHasKey(mt).Name] = true
 					out[S.MapValKey(mt).Name] = true
